@@ -109,11 +109,6 @@ func randBeh(c *hx.Ctx, T int64, val int, honPct int) beh {
 }
 
 func gen(c *hx.Ctx) {
-	// 0. real-scheduler stress (oracle-only): K senders released from a barrier on many fresh pools, max handlers <= N
-	for _, n := range []int{1, 2, 3} {
-		c.Emit("stress %d %d %d", n, n+2, c.Budget(1500, 12000))
-		c.Count("stress_lines")
-	}
 	// 1. exhaustive single-task sweep: N=1, every sequence of per-attempt behaviours from a 12-letter alphabet
 	{
 		const T = 1000
@@ -404,6 +399,34 @@ func gen(c *hx.Ctx) {
 		}
 		emit(c, n, nil, tasks)
 		c.Count("queue_wait_longer_than_T")
+	}
+	// 3h. Sends from DIFFERENT goroutines at the SAME scripted instant (the runtime chooses their order; every order must
+	// be accepted), with a small queue so that the order decides who is queued / rejected / blocked
+	for i := 0; i < c.Budget(80, 1200); i++ {
+		n := 1 + c.Rng.Intn(2)
+		var tasks []gtask
+		T := int64(1000)
+		inst := []int64{10, 10, 10, 700, 700, 1400}
+		ng := 2 + c.Rng.Intn(3)
+		for k := 0; k < 2+c.Rng.Intn(5); k++ {
+			tm := inst[c.Rng.Intn(len(inst))]
+			tasks = append(tasks, gtask{k % ng, tm, T, 1 + c.Rng.Intn(2), c.Rng.Intn(3) != 0, true,
+				[]beh{{[]int64{300, 700, 1000, 2500}[c.Rng.Intn(4)], c.Rng.Bool(), 10 + k, []int{0, 0, 3}[c.Rng.Intn(3)]}, {200, true, 30 + k, 0}}})
+		}
+		// per goroutine the sends happen in list order: keep each goroutine's instants non-decreasing
+		for g := 0; g < ng; g++ {
+			var last int64
+			for k := range tasks {
+				if tasks[k].g == g {
+					if tasks[k].time < last {
+						tasks[k].time = last
+					}
+					last = tasks[k].time
+				}
+			}
+		}
+		emit(c, n, nil, tasks)
+		c.Count("same_instant_sends")
 	}
 	// 4. random multi-task scenarios
 	for i := 0; i < c.Budget(1600, 12000); i++ {
